@@ -65,8 +65,13 @@ type Machine struct {
 	steps    int
 	MaxSteps int
 	forkAt   map[ssa.Instruction]int // forks taken at each branch instruction on the current path
-	cellSeq  int
-	depth    int
+	// LoopCut > 0: a path that forks more than LoopCut times at one branch instruction is abandoned
+	// (counted in Cuts) instead of failing the whole exploration
+	LoopCut int
+	Cuts    int
+	GoStmts int // go statements interpreted (sequential schedule)
+	cellSeq int
+	depth   int
 
 	// OnStore, when set, observes every store performed by interpreted code (cell written, position).
 	OnStore func(c *Cell, pos token.Pos, fn *ssa.Function)
@@ -355,6 +360,8 @@ func (m *Machine) runOnce(body func()) (err error) {
 			switch x := r.(type) {
 			case Unsupported:
 				err = x
+			case CutPath:
+				m.Cuts++
 			case ProgPanic:
 				err = fmt.Errorf("uncaught program panic: %s", x.Msg)
 			case divergence:
@@ -397,6 +404,9 @@ func (m *Machine) Run(call func() Value) (out Outcome) {
 }
 
 type divergence struct{}
+
+// CutPath abandons the current path (bounded loop unrolling); Explore goes on with the next one.
+type CutPath struct{ Why string }
 
 /* ---------- frames ---------- */
 
@@ -605,6 +615,11 @@ func (m *Machine) execBlock(fr *frame, b *ssa.BasicBlock, prev *ssa.BasicBlock) 
 						m.forkAt = map[ssa.Instruction]int{}
 					}
 					m.forkAt[x]++
+					if m.LoopCut > 0 && m.forkAt[x] > m.LoopCut {
+						// bounded unrolling: this path iterates a symbolic-bound loop further than the bound; it
+						// is abandoned (and counted), the shorter paths are explored completely
+						panic(CutPath{Why: "more than " + fmt.Sprint(m.LoopCut) + " iterations of a loop over a symbolic bound"})
+					}
 					if m.forkAt[x] > 12 {
 						panic(Unsupported{"loop whose bound is a symbolic integer (the same branch forked more than 12 times on one path)"})
 					}
@@ -672,7 +687,33 @@ func (m *Machine) execBlock(fr *frame, b *ssa.BasicBlock, prev *ssa.BasicBlock) 
 				}
 				fr.defers = append(fr.defers, func() { m.Call(cv.Fn, args, cv.Bind) })
 			}
-		case *ssa.Go, *ssa.Send, *ssa.Select:
+		case *ssa.Go:
+			// one legal schedule: the goroutine runs to completion at the point where it is started (locks and
+			// wait groups are no-ops in this single abstract thread).  What is decided is the VALUE this schedule
+			// produces; freedom from races is the business of the effect rules (S4/S8), not of the interpreter.
+			cc := x.Common()
+			if cc.IsInvoke() {
+				panic(Unsupported{"go statement on an interface method"})
+			}
+			args := make([]Value, len(cc.Args))
+			for i, a := range cc.Args {
+				args[i] = m.get(fr, a)
+			}
+			m.GoStmts++
+			switch callee := cc.Value.(type) {
+			case *ssa.Function:
+				m.Call(callee, args, nil)
+			case *ssa.Builtin:
+				panic(Unsupported{"go statement on a builtin"})
+			default:
+				fv := m.get(fr, cc.Value)
+				cv, ok := fv.(ClosureV)
+				if !ok {
+					panic(Unsupported{"go statement through " + Describe(fv)})
+				}
+				m.Call(cv.Fn, args, cv.Bind)
+			}
+		case *ssa.Send, *ssa.Select:
 			panic(Unsupported{fmt.Sprintf("instruction %T", in)})
 		case ssa.Value:
 			fr.locals[x] = m.eval(fr, x)
@@ -729,14 +770,40 @@ func (m *Machine) eval(fr *frame, v ssa.Value) Value {
 		return m.sliceOp(fr, x)
 	case *ssa.MakeSlice:
 		lv := m.get(fr, x.Len).(IntV)
+		if c, isC := lv.P.Const(); isC && c > 64 && c <= 8192 {
+			// a long concrete slice (labelled runs beyond a block-size constant)
+			if x.Cap != x.Len {
+				if cc, ok := m.get(fr, x.Cap).(IntV).P.Const(); !ok || cc < c {
+					panic(Unsupported{"makeslice with a long length and a different capacity"})
+				}
+			}
+			et := m.resolveType(x.Type()).Underlying().(*types.Slice).Elem()
+			arr := m.newArrayCell(et, int(c), fr.fn.Name()+":makeslice")
+			return SliceV{Arr: arr, Off: 0, Len: int(c), Cap: int(c)}
+		}
 		n, ok := m.Concretize(lv, 0, 64)
 		if !ok {
+			if n > 64 {
+				panic(Unsupported{"makeslice with a length above the interpreter's bound (" + lv.P.String() + ")"})
+			}
 			m.progPanic(fr, x.Pos(), "makeslice: len out of range (%s)", lv.P.String())
 		}
 		cv := m.get(fr, x.Cap).(IntV)
-		c, ok := m.Concretize(cv, 0, 64)
-		if !ok || c < n {
-			m.progPanic(fr, x.Pos(), "makeslice: cap out of range (%s)", cv.P.String())
+		var c int
+		if _, isConst := cv.P.Const(); !isConst && x.Cap != x.Len {
+			// a symbolic capacity hint on a fresh slice: spare capacity of fresh memory aliases nothing, so the
+			// slice is modelled with cap == len (appends reallocate); only the cap < len panic is kept
+			if m.Branch(sym.IntCond(sym.CLt(cv.P, sym.PInt(int64(n))))) {
+				m.progPanic(fr, x.Pos(), "makeslice: cap out of range (%s)", cv.P.String())
+			}
+			c = n
+		} else if cc, isC := cv.P.Const(); isC && cc > 64 && cc <= 8192 && int(cc) >= n {
+			c = int(cc)
+		} else {
+			c, ok = m.Concretize(cv, 0, 64)
+			if !ok || c < n {
+				m.progPanic(fr, x.Pos(), "makeslice: cap out of range (%s)", cv.P.String())
+			}
 		}
 		et := m.resolveType(x.Type()).Underlying().(*types.Slice).Elem()
 		arr := m.newArrayCell(et, c, fr.fn.Name()+":makeslice")
